@@ -210,6 +210,28 @@ theorem dropped_inert (cfg : Cfg) (ep : Endpoint) (t t' : Tracker) (eff : Eff) (
           simp [hs, respond, hc] at h; exact ⟨h.2.symm, h.1.symm⟩
         · simp [hs] at h; exact ⟨h.2.symm, h.1.symm⟩
 
+/-- whether a datagram is a well-formed message for an endpoint — and what it asks for — does not
+    depend on the clock (nor, by construction, on the tracker state): the clock value only travels
+    into the `_timestamp` metadata, which no validity test reads -/
+theorem classify_clock_irrelevant (cfg : Cfg) (ep : Endpoint) (data : Bytes) (loc : Option Addr) (src : Addr)
+    (now now' : Int) : classify cfg ep data loc src now = classify cfg ep data loc src now' := by
+  unfold classify
+  rcases protocolRecv_now cfg.prefixes data loc src now now' with ⟨h1, h2⟩ | ⟨rl, h, h', h1, h2, hs⟩
+  · rw [h1, h2]
+  · rw [h1, h2]
+    obtain ⟨a, b, c, d, e, f, g, i⟩ := classifiers_same hs
+    dsimp only
+    cases ep with
+    | adv => simp only [a]
+    | search => unfold firesSearch; rw [i]
+    | listenerAdv => simp only [a, c, d, e]
+    | listenerSearch => unfold firesSearch; rw [i, b, e]
+    | responder => simp only [f, g]
+
+/-- the C02 model decodes exactly as the C01 model does -/
+theorem decoder_is_C01 (d : Bytes) (loc : Option Addr) (src : Addr) (now : Int) :
+    decodeX Fixes.all d loc src now = decode d loc src now := decodeX_all_eq d loc src now
+
 /-- the known-device map is a dict: its keys stay unique whatever arrives -/
 theorem purgeLoop_sublist (now : Int) (d : PyDict Bytes Int) (nx : Option Int) :
     (purgeLoop now d nx).1.Sublist d := by
@@ -220,7 +242,7 @@ theorem purgeLoop_sublist (now : Int) (d : PyDict Bytes Int) (nx : Option Int) :
     unfold purgeLoop
     split
     · exact (ih nx).trans (List.sublist_cons_self _ _)
-    · exact (ih _).cons₂ _
+    · exact (ih _).cons_cons _
 
 theorem purge_nodup (t : Tracker) (now : Int) (h : (PyDict.keys t.devices).Nodup) :
     (PyDict.keys (purge t now).devices).Nodup := by
